@@ -262,10 +262,11 @@ def make_request(equipment, source, destination, spectrum=None, power_dbm=None, 
     return req
 
 
-def propagate_recorded(path, req, equipment):
-    """deep copy of the path (as planning() does) propagated by the real request.propagate under the recorder"""
+def propagate_recorded(path, req, equipment, copy_path=True):
+    """deep copy of the path (as planning() does) propagated by the real request.propagate under the recorder;
+    copy_path=False propagates on the given element objects themselves (as the transmission example does, several times)"""
     from gnpy.topology.request import propagate
-    pth = copy.deepcopy(path)
+    pth = copy.deepcopy(path) if copy_path else path
     with recording() as rec:
         si = propagate(pth, req, equipment)
     return pth, si, rec
